@@ -20,7 +20,7 @@ def column_lists(rng, t, quick):
     out.append((["".join(ch.upper() if ch.isascii() else ch for ch in c) for c in cols], sqlc))
     if t["kind"] != "norowid":
         for r in ("rowid", "ROWID", "oid", "_rowid_", "_RowId_"):
-            out.append(([r] + cols[:1], ["rowid"] + sqlc[:1]))
+            out.append(([r] + cols[:1], [r] + sqlc[:1]))       # the same spelling on both sides: an ordinary column of that name wins over the pseudo column
         out.append((cols + ["rowid"], sqlc + ["rowid"]))
     return out
 
